@@ -9,7 +9,7 @@ from pyvc.execu import Contract, LoopSpec, register
 
 from .model import (
     ASYN, BASE, ENV_MODIFIES, GK_ALL, GK_CALL, INITIAL_ID, MATCH, SYNC, W, env_effect, kw_state, locked,
-    mstate, others_kept, prefix_kept, qarr, qh, qt, rtc, wf_world,
+    mstate, others_kept, prefix_kept, qarr, qh, qt, rtc, wf_world, queue_items_valid,
 )
 
 
@@ -23,7 +23,8 @@ def td_valid(s, td):
     return {
         "td:machine": s.sel("TriggerData.machine", td) == W.SM,
         "td:model": s.sel("TriggerData.model", td) == W.MODEL,
-        "td:event-not-none": s.sel("TriggerData.event", td) != NONE,
+        "td:event-valid": z3.And(s.sel("TriggerData.event", td) >= FIRST_ADDR,
+                                 s.sel("TriggerData.event", td) < s["ghost.alloc"]),
     }
 
 
@@ -49,6 +50,8 @@ class ProcessingLoop(Contract):
         # case (c): the caller has just put an item (an obligation at every call site, see C11)
         f["nonrtc-queue-nonempty"] = z3.Implies(z3.Not(rtc(s)), qh(s) < qt(s))
         f["queue-items-valid"] = queue_items_valid(s)
+        from .model import wf_class
+        f.update(wf_class(s))
         return f
 
     def post(self, s0, s, a, r):
@@ -129,22 +132,12 @@ class ProcessingLoop(Contract):
                                               z3.Select(s.g("trig_res"), k) == W.SENT)))))),
             "queue-items-valid": queue_items_valid(s),
             "log-cursors": z3.And(s.g("ntrig") >= 0, s.g("ng") >= 0),
+            "state-map-untouched": z3.And(others_kept("idict.has", s0, s, W.CACHE), others_kept("idict.val", s0, s, W.CACHE)),
         }
 
     @property
     def loops(self):
         return {0: LoopSpec(self._inv)}
-
-
-def queue_items_valid(s):
-    k = z3.Const("k!qv", Int)
-    td = z3.Select(qarr(s), k)
-    return z3.ForAll([k], z3.Implies(
-        z3.And(k >= qh(s), k < qt(s)),
-        z3.And(td >= FIRST_ADDR, td < s["ghost.alloc"],
-               s.sel("TriggerData.machine", td) == W.SM,
-               s.sel("TriggerData.model", td) == W.MODEL,
-               s.sel("TriggerData.event", td) != NONE)))
 
 
 @register
@@ -165,18 +158,44 @@ class AsyncProcessingLoop(ProcessingLoop):
 
 
 # =========================================================================== _trigger
+def cur_transitions(s0):
+    """Transitions leaving the state the machine is in at entry (array, length, state ref)."""
+    from .model import smap_val, state_transitions
+    st = smap_val(s0, mstate(s0))
+    arr, n = state_transitions(s0, st)
+    return arr, n, st
+
+
+def ev_id(s, td):
+    return s.sel("Event.id", s.sel("TriggerData.event", td))
+
+
+def cell(s, name, td, t):
+    return z3.Select(z3.Select(s.g(name), td), t)
+
+
 class Trigger(Contract):
-    """C01 (selection), C03 (one log entry per event), C04 (exceptional state), C14 (result)."""
+    """C01 (selection), C03 (one log entry per event), C04 (exceptional state), C11 (__initial__),
+    C14 (result)."""
 
     qualnames = [SYNC + "_trigger"]
     params = [("self", "SyncEngine"), ("trigger_data", "TriggerData")]
     returns = "Val"
     raises = True
-    modifies = ENV_MODIFIES
+    modifies = ENV_MODIFIES + [
+        "EventData.trigger_data+", "EventData.transition+", "EventData.state+", "EventData.source+",
+        "EventData.target+", "EventData.result+", "EventData.executed+", "EventData.machine+",
+        "Transition.source+", "Transition.target+", "Transition.internal+", "Transition._events+",
+        "Transition._specs+", "Transition.validators+", "Transition.before+", "Transition.on+",
+        "Transition.after+", "Transition.cond+", "State.name+", "State.value+", "State._initial+",
+        "State._final+", "State._id+", "State.transitions+", "State._specs+", "State.enter+", "State.exit+",
+        "SpecListGrouper.key+", "SpecListGrouper.list+", "SpecListGrouper.group+"]
     properties = ["C01", "C03", "C04", "C11", "C14"]
 
     def pre(self, s, a):
+        from .model import wf_class
         f = dict(wf_world(s))
+        f.update(wf_class(s))
         f["self-is-engine"] = a.self.e == W.ENG
         f["rtc-implies-lock-held"] = z3.Implies(rtc(s), locked(s))
         f.update(td_valid(s, a.trigger_data))
@@ -191,38 +210,121 @@ class Trigger(Contract):
         n0 = path.run.init_heap_value("ghost.ntrig")
         path.hset("ghost.trig_res", z3.Store(path.hget("ghost.trig_res"), n0, ref_of(r)))
 
-    def post(self, s0, s, a, r):
+    # ---- shared pieces ------------------------------------------------------------------
+    def _log_post(self, s0, s, a, r=None):
         n0 = s0.g("ntrig")
         rl = z3.And(rtc(s0), locked(s0))
+        td = a.trigger_data.e
         f = {
-            "logged": z3.Select(s.g("trig_log"), n0) == a.trigger_data.e,
-            "result-logged": z3.Select(s.g("trig_res"), n0) == ref_of(r),
-            "rtc:exactly-one-trigger": z3.Implies(rl, z3.And(
-                s.g("ntrig") == n0 + 1,
-                s.g("trig_log") == z3.Store(s0.g("trig_log"), n0, a.trigger_data.e),
-                s.g("trig_res") == z3.Store(s0.g("trig_res"), n0, ref_of(r)))),
-            "nonrtc:log-grows": z3.Implies(z3.Not(rtc(s0)), z3.And(
+            "C03|logged": z3.Select(s.g("trig_log"), n0) == td,
+            "C03|rtc:exactly-one-trigger": z3.Implies(rl, z3.And(
+                s.g("ntrig") == n0 + 1, s.g("trig_log") == z3.Store(s0.g("trig_log"), n0, td))),
+            "C03|nonrtc:log-grows": z3.Implies(z3.Not(rtc(s0)), z3.And(
                 s.g("ntrig") >= n0 + 1, prefix_kept(s0.g("trig_log"), s.g("trig_log"), n0, "tl2"))),
         }
+        if r is not None:
+            f["C03,C14|result-logged"] = z3.Select(s.g("trig_res"), n0) == ref_of(r)
+            f["C03|rtc:result-log-exact"] = z3.Implies(rl, s.g("trig_res") == z3.Store(s0.g("trig_res"), n0, ref_of(r)))
         f.update(queue_effect(s0, s))
+        return f
+
+    def _selection(self, s0, s, a, upto, winner=None, winner_status=None):
+        """Candidates before `upto` were each activated once and rejected; non-candidates and
+        everything from `upto` on (except the winner) were never activated."""
+        td = a.trigger_data.e
+        arr, n, _ = cur_transitions(s0)
+        ev = ev_id(s0, td)
+        j = z3.Const("j!sel", Int)
+        tj = z3.Select(arr, j)
+        touched = z3.And(cell(s, "ac", td, tj) == cell(s0, "ac", td, tj) + 1)
+        untouched = z3.And(cell(s, "ac", td, tj) == cell(s0, "ac", td, tj), cell(s, "st", td, tj) == cell(s0, "st", td, tj))
+        fs = [
+            z3.ForAll([j], z3.Implies(z3.And(j >= 0, j < upto, MATCH(tj, ev)),
+                                      z3.And(touched, cell(s, "st", td, tj) == 1))),
+            z3.ForAll([j], z3.Implies(z3.And(j >= 0, j < n, z3.Not(MATCH(tj, ev))), untouched)),
+        ]
+        if winner is None:
+            fs.append(z3.ForAll([j], z3.Implies(z3.And(j >= upto, j < n), untouched)))
+        else:
+            fs.append(z3.ForAll([j], z3.Implies(z3.And(j > winner, j < n), untouched)))
+            tw = z3.Select(arr, winner)
+            fs.append(z3.And(MATCH(tw, ev), cell(s, "ac", td, tw) == cell(s0, "ac", td, tw) + 1,
+                             cell(s, "st", td, tw) == winner_status))
+        return z3.And(*fs)
+
+    def post(self, s0, s, a, r):
+        from .model import smap_has
+        td = a.trigger_data.e
+        rl = z3.And(rtc(s0), locked(s0))
+        initial = ev_id(s0, td) == INITIAL_ID
+        normal = z3.And(rl, z3.Not(initial))
+        arr, n, st = cur_transitions(s0)
+        k = z3.Const("k!tr", Int)
+        tk = z3.Select(arr, k)
+        res = ref_of(r)
+        allow = s0.sel("StateMachine.allow_event_without_transition", W.SM)
+        f = self._log_post(s0, s, a, r)
+        f["C01|state-was-mapped"] = z3.Implies(z3.Not(initial), smap_has(s0, mstate(s0)))
+        f["C01|first-enabled-candidate-fires-or-nothing-does"] = z3.Implies(normal, z3.Or(
+            z3.Exists([k], z3.And(
+                k >= 0, k < n, self._selection(s0, s, a, k, winner=k, winner_status=2),
+                mstate(s) == s0.sel("State.value", s0.sel("Transition.target", tk)))),
+            z3.And(self._selection(s0, s, a, n), mstate(s) == mstate(s0), allow, res == NONE)))
+        f["C11|initial:returns-sentinel"] = z3.Implies(initial, res == W.SENT)
+        f["C03,C11|sentinel-only-for-initial"] = z3.Implies(z3.Not(initial), res != W.SENT)
         return f
 
     def exc_post(self, s0, s, a, x):
-        n0 = s0.g("ntrig")
+        from .model import smap_has
+        td = a.trigger_data.e
+        rl = z3.And(rtc(s0), locked(s0))
+        initial = ev_id(s0, td) == INITIAL_ID
+        normal = z3.And(rl, z3.Not(initial), smap_has(s0, mstate(s0)))
+        arr, n, st = cur_transitions(s0)
+        k = z3.Const("k!trx", Int)
+        tk = z3.Select(arr, k)
+        allow = s0.sel("StateMachine.allow_event_without_transition", W.SM)
+        f = self._log_post(s0, s, a)
+        tna = x.is_sub("TransitionNotAllowed")
+        tna = z3.BoolVal(tna) if isinstance(tna, bool) else tna
+        if isinstance(x.tag, str) and x.tag == "TransitionNotAllowed":
+            # raised by _trigger itself: carries the event and the state, nothing fired
+            ev_arg, st_arg = x.fields["args"][0], x.fields["args"][1]
+            f["C01|not-allowed:carries-event-and-state"] = z3.And(
+                ref_of(ev_arg) == s0.sel("TriggerData.event", td),
+                s.sel("IState._state", ref_of(st_arg)) == st)
+            f["C01|not-allowed:no-candidate-enabled-state-unchanged"] = z3.Implies(normal, z3.And(
+                self._selection(s0, s, a, n), mstate(s) == mstate(s0), z3.Not(allow)))
+        elif isinstance(x.tag, str) and x.tag == "InvalidStateValue":
+            f["C10|unmapped-state-value"] = z3.Implies(z3.Not(initial), z3.Not(smap_has(s0, mstate(s0))))
+        else:
+            # escaped from the activation of candidate k: earlier candidates rejected, later ones
+            # never tried; C04: the state is the source, or k's target if it failed in enter/after
+            f["C01,C04|failed-candidate-aborts-the-event"] = z3.Implies(normal, z3.Exists([k], z3.And(
+                k >= 0, k < n, self._selection(s0, s, a, k, winner=k, winner_status=3),
+                z3.Or(mstate(s) == mstate(s0),
+                      mstate(s) == s0.sel("State.value", s0.sel("Transition.target", tk))))))
+        return f
+
+    def _inv(self, s0, s, a, l):
         rl = z3.And(rtc(s0), locked(s0))
         f = {
-            "logged": z3.Select(s.g("trig_log"), n0) == a.trigger_data.e,
-            "rtc:exactly-one-trigger": z3.Implies(rl, z3.And(
-                s.g("ntrig") == n0 + 1,
-                s.g("trig_log") == z3.Store(s0.g("trig_log"), n0, a.trigger_data.e))),
-            "nonrtc:log-grows": z3.Implies(z3.Not(rtc(s0)), s.g("ntrig") >= n0 + 1),
+            "C01|not-executed-yet": z3.Not(l.executed.e),
+            "C01|candidates-so-far-rejected": z3.Implies(rl, z3.And(
+                self._selection(s0, s, a, l.i), mstate(s) == mstate(s0))),
+            "C03|log": z3.And(*self._log_post(s0, s, a).values()),
+            "C03|result-log-untouched": z3.Implies(rl, s.g("trig_res") == s0.g("trig_res")),
         }
-        f.update(queue_effect(s0, s))
         return f
+
+    @property
+    def loops(self):
+        return {0: LoopSpec(self._inv)}
 
 
 def queue_effect(s0, s):
-    """The part of EnvCB that concerns the queue, as seen through a completed _trigger/_activate."""
+    """What a completed _activate/_trigger (i.e. some callback groups, EnvCB) did to engine state
+    other than the model field and the group log: the queue, the trigger log, the state cache."""
     rl = z3.And(rtc(s0), locked(s0))
     return {
         "queue:others-kept": z3.And(others_kept("deque.arr", s0, s, W.Q), others_kept("deque.head", s0, s, W.Q),
@@ -233,6 +335,20 @@ def queue_effect(s0, s):
             qt(s) - qh(s) == qt(s0) - qh(s0), qh(s) >= qh(s0), qh(s) <= qt(s))),
         "queue:items-valid": z3.Implies(queue_items_valid(s0), queue_items_valid(s)),
         "log-cursors": z3.And(s.g("ntrig") >= 0, s.g("ng") >= 0),
+        "state-cache-only": z3.And(others_kept("idict.has", s0, s, W.CACHE), others_kept("idict.val", s0, s, W.CACHE)),
+        "model-others-kept": others_kept("Model.state", s0, s, W.MODEL),
+    }
+
+
+def no_nested_trigger(s0, s):
+    """RTC: callbacks cannot start a _trigger (nested sends are queued).  Non-RTC: they can, so
+    the trigger log may grow, but what was logged stays."""
+    rl = z3.And(rtc(s0), locked(s0))
+    return {
+        "trigger-log:rtc-untouched": z3.Implies(rl, z3.And(
+            s.g("ntrig") == s0.g("ntrig"), s.g("trig_log") == s0.g("trig_log"), s.g("trig_res") == s0.g("trig_res"))),
+        "trigger-log:nonrtc-grows-only": z3.Implies(z3.Not(rtc(s0)), z3.And(
+            s.g("ntrig") >= s0.g("ntrig"), prefix_kept(s0.g("trig_log"), s.g("trig_log"), s0.g("ntrig"), "tl3"))),
     }
 
 
@@ -246,3 +362,237 @@ class AsyncTrigger(Trigger):
     qualnames = [ASYN + "_trigger"]
     params = [("self", "AsyncEngine"), ("trigger_data", "TriggerData")]
     is_async = True
+
+
+# =========================================================================== _activate
+from .model import (  # noqa: E402
+    SMQ, smap_has, smap_val, valid_obj, wf_class, wf_transition, grouper_key, state_transitions,
+)
+from .callbacks import reg_has  # noqa: E402
+
+
+def activation_groups(s0, t):
+    """The documented group sequence of one activation, as (key, model-state, kwargs-state) per
+    position, for the three shapes: internal (5 groups), external with source (7), external
+    without source (6).  `pos_assign` = number of groups that run before the state is assigned."""
+    src = s0.sel("Transition.source", t)
+    tgt = s0.sel("Transition.target", t)
+    tv = s0.sel("State.value", tgt)
+    cur = mstate(s0)
+    K = lambda g: grouper_key(s0, s0.sel("Transition." + g, t))  # noqa: E731
+    xk = grouper_key(s0, s0.sel("State.exit", src))
+    ek = grouper_key(s0, s0.sel("State.enter", tgt))
+    internal = s0.sel("Transition.internal", t)
+    V, Cn, Bf, On, Af = K("validators"), K("cond"), K("before"), K("on"), K("after")
+    pre_ = lambda k: (k, cur, src)  # noqa: E731  groups that see the source
+    post_ = lambda k: (k, tv, tgt)  # noqa: E731  groups that see the target
+    shapes = [
+        (internal, [pre_(V), pre_(Cn), pre_(Bf), pre_(On), post_(Af)], 4, 2, 3),
+        (z3.And(z3.Not(internal), src != NONE),
+         [pre_(V), pre_(Cn), pre_(Bf), pre_(xk), pre_(On), post_(ek), post_(Af)], 5, 2, 4),
+        (z3.And(z3.Not(internal), src == NONE),
+         [pre_(V), pre_(Cn), pre_(Bf), pre_(On), post_(ek), post_(Af)], 4, 2, 3),
+    ]
+    return shapes  # (condition, groups, pos_assign, pos_before, pos_on)
+
+
+class Activate(Contract):
+    """C02 (group order and state view), C04 (state on failure), C14 (result), C01 (guards decide)."""
+
+    qualnames = [SYNC + "_activate"]
+    params = [("self", "SyncEngine"), ("trigger_data", "TriggerData"), ("transition", "Transition")]
+    returns = ("tuple", ["bool", "Val"])
+    raises = True
+    modifies = ENV_MODIFIES + [
+        "EventData.trigger_data+", "EventData.transition+", "EventData.state+", "EventData.source+",
+        "EventData.target+", "EventData.result+", "EventData.executed+", "EventData.machine+"]
+    properties = ["C01", "C02", "C04", "C14"]
+
+    def pre(self, s, a):
+        f = dict(wf_world(s))
+        f["self-is-engine"] = a.self.e == W.ENG
+        f["rtc-implies-lock-held"] = z3.Implies(rtc(s), locked(s))
+        f.update(td_valid(s, a.trigger_data))
+        f["transition-wf"] = wf_transition(s, a.transition.e)
+        return f
+
+    def ghost_entry(self, path, a):
+        td, t = a.trigger_data.e, a.transition.e
+        ac = path.hget("ghost.ac")
+        row = z3.Select(ac, td)
+        path.hset("ghost.ac", z3.Store(ac, td, z3.Store(row, t, z3.Select(row, t) + 1)))
+
+    def _set_status(self, path, a, status):
+        td, t = a.trigger_data.e, a.transition.e
+        st = path.hget("ghost.st")
+        path.hset("ghost.st", z3.Store(st, td, z3.Store(z3.Select(st, td), t, status)))
+
+    def ghost_exit(self, path, a, r):
+        self._set_status(path, a, z3.If(r.items[0].e, z3.IntVal(2), z3.IntVal(1)))
+
+    def ghost_exc(self, path, a, x):
+        self._set_status(path, a, z3.IntVal(3))
+
+    def _status_post(self, s0, s, a, status):
+        td, t = a.trigger_data.e, a.transition.e
+        rl = z3.And(rtc(s0), locked(s0))
+        ac0, st0 = s0.g("ac"), s0.g("st")
+        return {
+            "status:this-activation": z3.And(
+                z3.Select(z3.Select(s.g("st"), td), t) == status,
+                z3.Select(z3.Select(s.g("ac"), td), t) >= z3.Select(z3.Select(ac0, td), t) + 1),
+            "status:rtc-only-this-cell-changes": z3.Implies(rl, z3.And(
+                s.g("ac") == z3.Store(ac0, td, z3.Store(z3.Select(ac0, td), t, z3.Select(z3.Select(ac0, td), t) + 1)),
+                s.g("st") == z3.Store(st0, td, z3.Store(z3.Select(st0, td), t, status)))),
+        }
+
+    def post(self, s0, s, a, r):
+        executed, res = r.items[0].e, ref_of(r.items[1])
+        t = a.transition.e
+        g0 = s0.g("ng")
+        rl = z3.And(rtc(s0), locked(s0))
+        tv = s0.sel("State.value", s0.sel("Transition.target", t))
+        f = self._status_post(s0, s, a, z3.If(executed, z3.IntVal(2), z3.IntVal(1)))
+        f.update(queue_effect(s0, s))
+        f.update(no_nested_trigger(s0, s))
+        f["C03|result-is-never-the-private-sentinel"] = res != W.SENT
+        # ---- rejected candidate: validators and guards only, state unchanged, no result
+        Vk = grouper_key(s0, s0.sel("Transition.validators", t))
+        Ck = grouper_key(s0, s0.sel("Transition.cond", t))
+        f["C01,C02|rejected:only-validators-and-guards-ran"] = z3.Implies(z3.And(rl, z3.Not(executed)), z3.And(
+            s.g("ng") == g0 + 2, z3.Select(s.g("g_key"), g0) == Vk, z3.Select(s.g("g_key"), g0 + 1) == Ck,
+            z3.Select(s.g("g_kind"), g0 + 1) == GK_ALL, z3.Not(z3.Select(s.g("g_ok"), g0 + 1))))
+        f["C01|rejected:state-unchanged-result-None"] = z3.Implies(z3.Not(executed), z3.And(
+            res == NONE, z3.Implies(rl, mstate(s) == mstate(s0))))
+        # ---- executed: the documented sequence with the documented view of the state
+        k = z3.Const("k!ac", Int)
+        for ci, (cond, groups, pos_assign, pb, po) in enumerate(activation_groups(s0, t)):
+            case = z3.And(rl, executed, cond)
+            order = [s.g("ng") == g0 + len(groups)]
+            for i, (key, ms, ks) in enumerate(groups):
+                order.append(z3.Select(s.g("g_key"), g0 + i) == key)
+            f[f"C02|executed:group-order[shape{ci}]"] = z3.Implies(case, z3.And(*order))
+            f[f"C02|executed:state-view[shape{ci}]"] = z3.Implies(case, z3.And(*[
+                z3.And(z3.Select(s.g("g_ms"), g0 + i) == ms, z3.Select(s.g("g_ks"), g0 + i) == ks)
+                for i, (key, ms, ks) in enumerate(groups)]))
+            f[f"C01|executed:guards-passed[shape{ci}]"] = z3.Implies(case, z3.And(
+                z3.Select(s.g("g_kind"), g0 + 1) == GK_ALL, z3.Select(s.g("g_ok"), g0 + 1)))
+            nb, no = z3.Select(s.g("g_reslen"), g0 + pb), z3.Select(s.g("g_reslen"), g0 + po)
+            rb, ro = z3.Select(s.g("g_res"), g0 + pb), z3.Select(s.g("g_res"), g0 + po)
+            f[f"C14|result:from-before-then-on-only[shape{ci}]"] = z3.Implies(case, z3.And(
+                z3.Implies(nb + no == 0, res == NONE),
+                z3.Implies(nb + no == 1, res == z3.If(nb == 1, z3.Select(rb, 0), z3.Select(ro, 0))),
+                z3.Implies(nb + no >= 2, z3.And(
+                    s.sel("list.len", res) == nb + no,
+                    z3.ForAll([k], z3.Implies(z3.And(k >= 0, k < nb),
+                                              z3.Select(s.sel("list.arr", res), k) == z3.Select(rb, k))),
+                    z3.ForAll([k], z3.Implies(z3.And(k >= 0, k < no),
+                                              z3.Select(s.sel("list.arr", res), nb + k) == z3.Select(ro, k))))),
+            ))
+        f["C01,C10|executed:state-is-target-value"] = z3.Implies(z3.And(rl, executed), mstate(s) == tv)
+        return f
+
+    def exc_post(self, s0, s, a, x):
+        t = a.transition.e
+        g0 = s0.g("ng")
+        rl = z3.And(rtc(s0), locked(s0))
+        tv = s0.sel("State.value", s0.sel("Transition.target", t))
+        f = self._status_post(s0, s, a, z3.IntVal(3))
+        f.update(queue_effect(s0, s))
+        f.update(no_nested_trigger(s0, s))
+        m = s.g("ng") - g0  # groups started; the last one raised
+        for ci, (cond, groups, pos_assign, pb, po) in enumerate(activation_groups(s0, t)):
+            case = z3.And(rl, cond)
+            f[f"C04|failed:groups-are-a-prefix-of-the-sequence[shape{ci}]"] = z3.Implies(case, z3.And(
+                m >= 1, m <= len(groups),
+                *[z3.Implies(m > i, z3.Select(s.g("g_key"), g0 + i) == key) for i, (key, _, _) in enumerate(groups)]))
+            f[f"C04|failed:state-is-source-before-assignment-target-after[shape{ci}]"] = z3.Implies(case, z3.And(
+                z3.Implies(m <= pos_assign, mstate(s) == mstate(s0)),
+                z3.Implies(m > pos_assign, mstate(s) == tv)))
+        return f
+
+
+@register
+class SyncActivate(Activate):
+    pass
+
+
+@register
+class AsyncActivate(Activate):
+    qualnames = [ASYN + "_activate"]
+    params = [("self", "AsyncEngine"), ("trigger_data", "TriggerData"), ("transition", "Transition")]
+    is_async = True
+
+
+# =========================================================================== helpers of _trigger
+TRANSITION_FRESH = [
+    "Transition.source+", "Transition.target+", "Transition.internal+", "Transition._events+",
+    "Transition._specs+", "Transition.validators+", "Transition.before+", "Transition.on+",
+    "Transition.after+", "Transition.cond+", "State.name+", "State.value+", "State._initial+",
+    "State._final+", "State._id+", "State.transitions+", "State._specs+", "State.enter+", "State.exit+",
+    "SpecListGrouper.key+", "SpecListGrouper.list+", "SpecListGrouper.group+"]
+
+
+def init_target(s):
+    """The state initial activation enters (C10/C11): `start_value` when one is given (anything that
+    is not None, falsy values included), otherwise the class's initial state."""
+    sv = s.sel("StateMachine.start_value", W.SM)
+    return z3.If(sv != NONE, smap_val(s, sv), s.sel("StateMachine.initial_state", W.SM))
+
+
+@register
+class InitialTransition(Contract):
+    """BaseEngine._initial_transition: the pseudo-transition of `__initial__` (C02, C11): a fresh
+    source state and a fresh transition whose callback groups are registered nowhere, so that
+    activating it can only run the target state's enter group."""
+
+    qualnames = [BASE + "_initial_transition"]
+    params = [("self", "BaseEngine"), ("trigger_data", "TriggerData")]
+    returns = "Transition"
+    raises = True
+    exc_classes = ["InvalidStateValue"]
+    modifies = TRANSITION_FRESH
+    properties = ["C02", "C11"]
+    trusted = True  # body not yet under contract: needs Transition/State constructor contracts
+
+    def pre(self, s, a):
+        f = dict(wf_world(s))
+        f["self-is-engine"] = a.self.e == W.ENG
+        return f
+
+    def post(self, s0, s, a, r):
+        t = r.e
+        src = s.sel("Transition.source", t)
+        al0 = s0["ghost.alloc"]
+        sv = s0.sel("StateMachine.start_value", W.SM)
+        keys = [grouper_key(s, s.sel("Transition." + g, t)) for g in ("validators", "cond", "before", "on", "after")]
+        keys.append(grouper_key(s, s.sel("State.exit", src)))
+        return {
+            "fresh-transition-and-source": z3.And(t >= al0, t < s["ghost.alloc"], src >= al0, src < s["ghost.alloc"], src != t),
+            "external": z3.Not(s.sel("Transition.internal", t)),
+            "target-is-start-state": s.sel("Transition.target", t) == init_target(s0),
+            "start-value-mapped": z3.Implies(sv != NONE, smap_has(s0, sv)),
+            "wf": wf_transition(s, t),
+            "own-groups-registered-nowhere": z3.And(*[z3.Not(reg_has(s, k2)) for k2 in keys]),
+        }
+
+    def exc_post(self, s0, s, a, x):
+        sv = s0.sel("StateMachine.start_value", W.SM)
+        return {"start-value-unmapped": z3.And(sv != NONE, z3.Not(smap_has(s0, sv)))}
+
+    def assumptions(self):
+        return ["BaseEngine._initial_transition: assumed contract (fresh transition, groups registered nowhere)"]
+
+
+@register
+class TransitionMatch(Contract):
+    """Transition.match(event): MATCH(t, id) is *defined* as 'some event of t has this id'."""
+
+    qualnames = ["statemachine.transition:Transition.match"]
+    params = [("self", "Transition"), ("event", "str")]
+    returns = "bool"
+    modifies = []
+    properties = ["C01"]
+
+    def post(self, s0, s, a, r):
+        return {"C01|result-is-MATCH": r.e == MATCH(a.self.e, a.event.e)}
